@@ -157,6 +157,13 @@ def run(run):
     # ------------------------------------------------------------------ R4
     _device_reports(run)
     _check_version_relation(run, L)
+    # the PIN the bring-up sends is the PIN it holds, byte for byte (rule of C18 under the prefix N.)
+    from . import c18
+    run.rid_prefix = "N."
+    try:
+        c18.pin_relay(run, "R6")
+    finally:
+        run.rid_prefix = ""
     _check_constants(run, L)
 
 
@@ -460,6 +467,8 @@ def _device_reports(run):
     want = {
         "get_current_mode": {"self.MODE(self._send_command(self.CMD.GET_MODE)[1])"},
         "is_onboarded": {"self._send_command(self.CMD.IS_ONBOARD)[1] == 1"},
+        # the retries byte is the third byte of the answer on both platforms (ui_comm.c: APDU_DATA_PTR[0] after CLA, CMD; system.c SGX_RETRIES alike)
+        "get_retries": {"self._send_command(self.CMD.RETRIES)[2]", "self._send_command(SgxCommand.SGX_RETRIES)[2]"},
     }
     for dc in dongle_classes(run):
         for mname, wv in want.items():
@@ -467,10 +476,14 @@ def _device_reports(run):
             run.require(r_ is not None and r_[1] == "method", f"{dc.name}.{mname} vanished")
             m = r_[2]
             own = r_[0]
-            rv = {_strip(x) for x in return_values(A, m, dc, PVd)}
-            run.check("R3", rv == {_strip(w) for w in wv}, f"{dc.name}.{mname} reports the device's own answer", key=f"{dc.name}.{mname}|source", where=m.loc(),
-                      message=f"{dc.name}.{mname} (defined in {own.name}) returns {sorted(rv)[:3]}; expected the mode byte of a fresh GET_MODE answer (UNKNOWN only "
-                              "when the exchange fails): a mode the device did not report would let the bring-up unlock / serve in a state it must stop in")
+            from .common import canon_text
+            rv = {_strip(canon_text(run, m, dc, x, locals_=set(m.params))) for x in return_values(A, m, dc, PVd)}
+            if mname == "get_retries":
+                wv = {w for w in wv if ("SGX_RETRIES" in w) == (own.name == "HSM2DongleSGX")}
+            okv = rv == {_strip(canon_text(run, m, dc, w)) for w in wv}
+            run.check("R3", okv, f"{dc.name}.{mname} reports the device's own answer", key=f"{dc.name}.{mname}|source", where=m.loc(),
+                      message=f"{dc.name}.{mname} (defined in {own.name}) returns {sorted(rv)[:3]}; expected {sorted(wv)} (for get_current_mode: UNKNOWN only "
+                              "when the exchange fails): a mode / flag / retry count the device did not report would let the bring-up unlock or serve in a state it must stop in")
             if mname != "get_current_mode":
                 hs = [h for n in A.own_nodes(m) if isinstance(n, ast.Try) for h in n.handlers]
                 run.check("R3", not hs, f"{dc.name}.{mname}: a failed query is not an answer", key=f"{dc.name}.{mname}|handlers", where=m.loc(),
